@@ -758,9 +758,20 @@ fn family_set_speed(r: &mut Rng, k: usize, all_ckpt: bool, sink: &mut Sink) {
     tsb.train_config.train_type = tt;
     plain("TrainSimBuilder", format!("setspeed/{}/builder", k), &[itag], &tsb, sink);
     let n = 6 + r.below(12);
-    let st = speed_trace(r, n, 12.0, false);
+    let mut st = speed_trace(r, n, 12.0, false);
+    // rolling start: the simulation begins at speed and the very first step brakes (negative wheel power), so the
+    // consist's dynamic-braking limit is read before the consist has ever been solved or loaded
+    let rolling = k % 3 == 1;
+    if rolling {
+        let v0 = 6.0 + (k % 5) as f64;
+        tsb = TrainSimBuilder::new(tsb.train_id.clone(), tsb.train_config.clone(), tsb.loco_con.clone(), None, None, Some(InitTrainState::new(Some(uc::S * 0.0), None, Some(uc::MPS * v0))));
+        let mut v = v0;
+        for i in 0..st.speed.len() { st.speed[i] = uc::MPS * v; v = (v - 0.08 * (1 + i % 3) as f64).max(0.0); }
+    }
     let path: Vec<LinkIdx> = (1..=m).map(|i| LinkIdx::new(i as u32)).collect();
     let sim0 = match catch(AssertUnwindSafe(|| tsb.make_set_speed_train_sim(&net, &path, st, save))) { Ok(Ok(s)) => s, _ => return };
+    let itag = if rolling { format!("{}|start:rolling_braking_first", itag) } else { itag.to_string() };
+    let itag: &str = &itag;
     let n_steps = sim0.speed_trace.len() - 1;
     with_beh("SetSpeedTrainSim", format!("setspeed/{}/walk", k), &["state:unstarted", itag], &sim0, &beh_set_speed_walk, sink);
     let mut s = sim0.clone();
